@@ -74,6 +74,11 @@ func verifSetEq2(a, b []string) bool {
 func VerifC16ProxyWrappers() {
 	inner := &verifInner{}
 	sf := NewSingleFlightProvider(inner, nil)
+	// a second provider instance (proxy.New builds one per upstream, possibly for another
+	// identity provider): calls through different instances are different questions
+	inner2 := &verifInner{}
+	sf2 := NewSingleFlightProvider(inner2, nil)
+	second := zz.NondetBool("second.caller.uses.another.provider.instance")
 	type caller struct {
 		method  int
 		sess    *sessions.SessionState
@@ -99,14 +104,18 @@ func VerifC16ProxyWrappers() {
 		zz.Assume(!contains(c.email, ":"))
 		c.groups0 = append([]string(nil), c.groups...)
 		cs[i] = c
+		via := sf
+		if i == 1 && second {
+			via = sf2
+		}
 		zz.Go("caller", func() {
 			switch c.method {
 			case 0:
-				c.ok = sf.ValidateSessionState(c.sess, c.groups)
+				c.ok = via.ValidateSessionState(c.sess, c.groups)
 			case 1:
-				c.ok, _ = sf.RefreshSession(c.sess, c.groups)
+				c.ok, _ = via.RefreshSession(c.sess, c.groups)
 			case 2:
-				c.out, _ = sf.UserGroups(c.email, c.groups, c.sess.AccessToken)
+				c.out, _ = via.UserGroups(c.email, c.groups, c.sess.AccessToken)
 			}
 			c.done = true
 		})
@@ -117,6 +126,11 @@ func VerifC16ProxyWrappers() {
 		return
 	}
 	zz.Assert(cs[0].done && cs[1].done, "C16.both callers return")
+	if second {
+		zz.Reach("two-provider-instances")
+		zz.Assert(zz.And(inner.Execs == 1, inner2.Execs == 1), "C16.calls through different provider instances are never merged")
+		return
+	}
 	merged := inner.Execs == 1
 	if !merged {
 		zz.Reach("not-merged")
